@@ -96,8 +96,9 @@ class Holder(protocol.Factory):
 
 
 class Pair:
-    def __init__(self, relay=False, key_l=KEY, key_f=KEY):
-        reactor.reset()
+    def __init__(self, relay=False, key_l=KEY, key_f=KEY, reset=True):
+        if reset:
+            reactor.reset()
         self.eq = EventualQueue(reactor)
         self.L = End(LEADER, key_l, self.eq, relay)
         self.F = End(FOLLOWER, key_f, self.eq, relay)
@@ -245,6 +246,48 @@ def run_roundtrip(tid, rc, chunking, direction, relay, rng, late=False):
                 "atFault": -1, "dropped": not dst.p.transport.connected or dst.p.transport.disconnecting, "stalled": False,
                 "candidate": dst.candidate > 0, "faultKind": "-", "internal": internal, "rc": rc, "chunking": chunking,
                 "direction": direction, "relay": relay, "late": bool(pair.F.late_select)}
+    finally:
+        log.removeObserver(logged)
+
+
+def run_two_sessions(tid, rc, chunking, rng, order):
+    """Two dilated sessions in one process at the same time (two wormholes of one application, or one process serving several
+    peers): on both, records reach the Follower while it is still a candidate; then the two Connectors accept in `order`.
+    Each Manager must get exactly the records of its own connection - nothing of one L2 connection may end up in another."""
+    logged = Logged()
+    log.addObserver(logged)
+    try:
+        a = Pair(relay=False)
+        b = Pair(relay=False, key_l=b"K" * 32, key_f=b"K" * 32, reset=False)
+        for pr in (a, b):
+            pr.F.late_select = True
+            settle(pr, chunking=chunking, rng=rng)
+        sent = {}
+        raised = []
+        for name, pr, scid in (("a", a, 3), ("b", b, 5)):
+            rec = concretise_record(rc, rng)
+            sent[name] = [rec, C.Ack(7 + scid), C.Close(scid, 9), C.Ack(8 + scid)]
+            if not (pr.L.p._can_send_records and pr.F.candidate > 0):
+                raised.append("session %s is not ready" % name)
+                continue
+            for r in sent[name]:
+                try:
+                    pr.L.p.send_record(r)
+                except Exception as e:
+                    raised.append("send_record: %r" % (e,))
+        for pr in (a, b):
+            feed(pr, pr.F, drain_writes(pr, pr.L), chunking, rng)
+        for name in order:
+            pr = a if name == "a" else b
+            if pr.F.records:
+                raised.append("records reached the manager of session %s before its connection was selected" % name)
+            pr.F.select_now()
+        got = {"a": list(a.F.records), "b": list(b.F.records)}
+        internal = [repr(e)[:100] for e in logged.items] + [x[:100] for x in raised]
+        ok = not raised and got["a"] == sent["a"] and got["b"] == sent["b"]
+        return {"tid": tid, "kind": "roundtrip", "identical": bool(ok), "got": len(got["a"]) + len(got["b"]), "sent": len(sent.get("a", ())) + len(sent.get("b", ())),
+                "atFault": -1, "dropped": False, "stalled": False, "candidate": a.F.candidate > 0 and b.F.candidate > 0, "faultKind": "-",
+                "internal": internal, "rc": rc, "chunking": chunking, "direction": "l2f", "relay": False, "late": True, "sessions": 2}
     finally:
         log.removeObserver(logged)
 
@@ -404,6 +447,16 @@ def run(prop, tier):
                     tid += 1
                     records.append(run_roundtrip(tid, rc, chunking, direction, relay=(tid % 5 == 0), rng=random.Random(seed * 17 + tid),
                                                  late=(tid % 3 == 0)))
+        # two sessions at the same time in one process (every record class, both acceptance orders)
+        nts = 0
+        for rc in classes:
+            if rc["t"] == "KCM" or (rc["t"] == "Data" and int(rc["x"]) > 70000):
+                continue
+            for order in (("a", "b"), ("b", "a")):
+                tid += 1
+                nts += 1
+                records.append(run_two_sessions(tid, rc, "whole" if nts % 2 else "joined", random.Random(seed * 23 + tid), order))
+        cov["two_session_cases"] = nts
         for (relay, kind, at) in behaviours:
             genuine = (["relayok"] if relay else []) + ["prologue", "handshake", "kcm", "record", "record", "record"]
             tok = genuine[at - 1]
@@ -457,7 +510,9 @@ def run(prop, tier):
 
 def replay(prop, path):
     d = json.load(open(path))["replay"]["case"]
-    if d["kind"] == "roundtrip":
+    if d["kind"] == "roundtrip" and d.get("sessions") == 2:
+        rec = run_two_sessions(1, d["rc"], d["chunking"], random.Random(1), ("a", "b"))
+    elif d["kind"] == "roundtrip":
         rec = run_roundtrip(1, d["rc"], d["chunking"], d["direction"], d["relay"], random.Random(1), late=d.get("late", False))
     else:
         rec = run_fault(1, d["faultKind"], d["at"], 3, d["chunking"], d["direction"], d["relay"], random.Random(1), 0)
